@@ -12,6 +12,8 @@ PROPS = {
             {"scen": "tunnel", "sets": {"mode": "faulty"}, "quick": 3000, "thorough": 120000},
             {"scen": "tunnel", "sets": {"mode": "faulty", "raw": True}, "quick": 600, "thorough": 20000},
             {"scen": "tunnel", "sets": {"mode": "stale"}, "quick": 1200, "thorough": 60000},
+            # the open known finding (known_findings.json): a copy from exactly eight packets back + a frame pair Adler-32 cannot tell apart
+            {"scen": "tunnel", "sets": {"mode": "stale8"}, "quick": 64, "thorough": 3000},
         ],
         "expect_probes": ["c01.offered", "c01.written", "c01.offered.tiny", "c01.offered.huge", "srv.raw_session"],
     },
